@@ -249,7 +249,12 @@ impl<T: RealNumber + Sum, D: Distance<Vec<T>, T>> DBSCAN<T, D> {
                     label[yi as usize] += 1;
                 }
             }
-            let class = which_max(&label);
+            let class = if label.iter().all(|c| *c == 0) {
+                // no training point within eps: noise
+                self.num_classes
+            } else {
+                which_max(&label)
+            };
             if class != self.num_classes {
                 result.set(0, i, T::from(class).unwrap());
             } else {
